@@ -191,7 +191,7 @@ PROPS = {
         "trusted_base": ["rayon; Rust's aliasing rules for par_iter_mut"],
     },
     "C01": {
-        "harness_cmd": ["steps", "c09", "thermal --only C01"],
+        "harness_cmd": ["steps", "c09", "c08", "thermal --only C01"],
         "oracle_props": ["C01"],
         "property_files": ["C01.v"],
         "expected_theorems": ["C01_two_site_elements", "C01_transverse_elements", "C01_longitudinal_elements", "C01_weight_fill_ratio",
